@@ -107,7 +107,8 @@ def run_both(scripts, timeout=600, isolate=None):
 
 # outputs with which the harness itself reports that two public paths of the implementation
 # disagreed on one input (each is a concrete failing input, not an error the property allows)
-HARNESS_VERDICTS = {'err serde-paths-differ', 'err serde-text-form-differs'}
+HARNESS_VERDICTS = {'err serde-paths-differ', 'err serde-text-form-differs', 'err trait-paths-differ',
+                    'err iter-paths-differ'}
 
 def oracle_ok(impl, spec):
     """Does the implementation's output satisfy the plain-sequence oracle? The oracle never demands
